@@ -230,6 +230,44 @@ def edit_case(r, root, m, side, nops=6, ops=None):
 
 # ---- run ---------------------------------------------------------------------------------------------------
 
+def wrapper_case(r, root, m, name, steps=None):
+    """A deep copy of a repeated FIELD (the raw wrapper, `copy.deepcopy(model.raw_xxx)`) is a list of its own: editing it
+    changes nothing the original says, and editing the original changes nothing in the copy.  Returns (failure, steps)."""
+    import copy as _copy
+    before = intro.public_reads(m)                 # also creates every cached view of the original
+    text0 = intro.pr(root)
+    w = getattr(m, name)
+    w2 = _copy.deepcopy(w)
+    texts2 = [intro.pr(x) for x in w2]
+    if texts2 != [intro.pr(x) for x in w]:
+        return ('C11:wrapper-copy-differs:' + name, f'deepcopy({type(m).__name__}.{name}) does not hold copies of the same items'), []
+    done = []
+    plan = steps if steps is not None else [r.choice(['rot', 'pop', 'rot']) for _ in range(r.choice([1, 2, 3]))]
+    for st in plan:
+        done.append(st)
+        try:
+            if len(w2):
+                x = w2.pop(-1 if st != 'rot' else 0)
+                if st == 'rot':
+                    w2.append(x)
+        except Exception as e:
+            return (f'C11:wrapper-copy-edit-raises:{type(e).__name__}', f'editing the copy of {type(m).__name__}.{name}: {e}'), done
+        after = intro.public_reads(m)
+        if after != before or intro.pr(root) != text0:
+            bad = next((k for k in before if after.get(k) != before[k]), 'text')
+            return (f'C11:wrapper-copy-edit-reaches-original:{name}', f'after editing a deep copy of {type(m).__name__}.{name} the original reads '
+                    f'.{bad} = {str(after.get(bad))[:120]} (before: {str(before.get(bad))[:120]})'), done
+    texts2 = [intro.pr(x) for x in w2]
+    try:
+        if len(w):
+            w.pop(0)
+    except Exception as e:
+        return (f'C11:original-edit-raises-after-wrapper-copy:{type(e).__name__}', str(e)[:120]), done
+    if [intro.pr(x) for x in w2] != texts2:
+        return ('C11:original-edit-reaches-wrapper-copy:' + name, f'editing {type(m).__name__}.{name} changed its earlier deep copy'), done
+    return None, done
+
+
 def _documents(ctx, n):
     r = ctx.rng
     corpus = list(docs.corpus('File'))
@@ -317,6 +355,21 @@ def run(ctx, ndocs=None, lockstep=True):
                     ctx.count(f'edit-{side}:{kind}:{out}')
                 if fail:
                     ctx.oracle_fail(fail[0], fail[1], {**base_replay, 'mode': 'edit-' + side, 'path': list(path), 'ops': done})
+        # deep copies of repeated FIELDS (raw wrappers)
+        holders = [(p, m, name) for p, m in trees for name in intro.api_props(type(m))['rep'] if len(getattr(m, name))] \
+            if all(not isinstance(m, (models.NumberAddExpr, models.NumberMulExpr, internal.Repeated)) or True for _, m in trees) else []
+        holders = [(p, m, name) for p, m, name in holders if not isinstance(m, (models.NumberAddExpr, models.NumberMulExpr, internal.Repeated))]
+        for path, m0, name in (r.sample(holders, 3) if len(holders) > 3 else holders):
+            root2 = build_doc(text, auto, pre_ops)
+            try:
+                m = by_path(root2, path)
+            except Exception:   # noqa: BLE001
+                continue
+            fail, done = wrapper_case(r, root2, m, name)
+            ctx.case((type(m).__name__, 'wrapper-copy', name, 'fail' if fail else 'ok'))
+            ctx.count('wrapper-copy:' + name)
+            if fail:
+                ctx.oracle_fail(fail[0], fail[1], {**base_replay, 'mode': 'wrapper', 'path': list(path), 'name': name, 'steps': done})
     if model_ok and lines:
         out = ctx.driver.run(lines)
         ctx.extra['lockstep_lines'] = len(lines)
@@ -342,6 +395,9 @@ def replay(ctx, data):
     if mode == 'copy':
         _, fails = copy_checks(root, m)
         return not fails
+    if mode == 'wrapper':
+        fail, _ = wrapper_case(ctx.rng, root, m, rep['name'], steps=rep.get('steps'))
+        return fail is None
     side = mode.split('-', 1)[1]
     fail, _, _ = edit_case(ctx.rng, root, m, side, ops=rep.get('ops', []))
     return fail is None
